@@ -449,6 +449,10 @@ def structural_descent(edge, type_markers):
                 cls = "none"
                 break
             real = [p for p in l.projs if p.startswith(".") or p.startswith("as:") or p == "[_]" or p.startswith("via:std::iter") or p.startswith("via:utils::Spanned") or p.startswith("via:core::slice") or "::iter" in p or "into_iter" in p or "::values" in p]
+            if not real and b.kind == "closure" and l.detail >= 2 and _closure_arg_is_strict_part(b, transparent):
+                # `self.field.map(|x| x.recurse())`: the closure's argument is the payload / an item of the receiver the adapter was applied
+                # to — a strict part of the enclosing function's own parameter
+                continue
             if not real:
                 cls = "same" if cls == "strict" else cls
         if cls == "strict":
@@ -456,6 +460,31 @@ def structural_descent(edge, type_markers):
         if cls == "same":
             best = "same"
     return best
+
+
+ARG_ADAPTERS = ("map", "and_then", "find_map", "filter_map", "for_each", "any", "all", "map_or", "map_or_else", "is_some_and", "flat_map", "try_for_each", "fold")
+
+
+def _closure_arg_is_strict_part(cb, transparent):
+    crate = cb.crate
+    parent = crate.bodies.get(cb.parent) if cb.parent else None
+    if parent is None:
+        return False
+    tr = Tracer(parent, transparent=transparent)
+    for bb, t in parent.calls():
+        if callee_def(t).rsplit("::", 1)[-1] not in ARG_ADAPTERS or len(t["args"]) < 2:
+            continue
+        passed = False
+        for a in t["args"][1:]:
+            for l in tr.operand(a):
+                if l.kind == "agg" and l.detail[0] == "closure" and parent.blocks[l.detail[3]]["s"][l.detail[4]]["rv"].get("def") == cb.path:
+                    passed = True
+        if not passed:
+            continue
+        rl = [l for l in tr.operand(t["args"][0]) if l.kind != "cycle"]
+        if rl and all(l.kind == "param" and any(p.startswith(".") or p.startswith("as:") for p in l.projs) for l in rl):
+            return True
+    return False
 
 
 # cycle analysis -----------------------------------------------------------------------------------------------
